@@ -304,13 +304,32 @@ func (res *Response) ReadFrom(r io.Reader) (n int64, err error) {
 		return 0, nil
 	}
 
+	res.WriteHeader(http.StatusOK)
+	res.checkChunked()
+	if cl, _ := res.contentLength(); res.chunked || cl <= 0 {
+		// Chunked framing, or a Content-Length that has to be computed from the
+		// buffered body: go through Write, which does both.
+		return io.Copy(struct{ io.Writer }{res}, r)
+	}
+
+	// The length is announced by the handler: send what is buffered so far
+	// (the head, and body bytes of earlier writes) and then the reader's data.
 	res.hasBody = true
 	res.eoncodeHead()
-	_, err = c.Write(*res.buffer)
-	mempool.Free(res.buffer)
-	res.buffer = nil
-	if err != nil {
-		return 0, err
+	if res.buffer != nil {
+		_, err = c.Write(*res.buffer)
+		mempool.Free(res.buffer)
+		res.buffer = nil
+		if err != nil {
+			return 0, err
+		}
+	}
+	if res.bodyBuffer != nil && len(*res.bodyBuffer) > 0 {
+		_, err = c.Write(*res.bodyBuffer)
+		*res.bodyBuffer = (*res.bodyBuffer)[0:0]
+		if err != nil {
+			return 0, err
+		}
 	}
 
 	if !res.Parser.Engine.DisableSendfile {
